@@ -36,12 +36,16 @@ type Party interface {
 	advance()
 	lock()
 	unlock()
+	noteEarlyMessage()
+	hasEarlyMessages() bool
 }
 
 type BaseParty struct {
 	mtx        sync.Mutex
 	rnd        Round
 	FirstRound Round
+	// set when a message was stored before Start() was called
+	earlyMessages bool
 }
 
 func (p *BaseParty) Running() bool {
@@ -105,6 +109,14 @@ func (p *BaseParty) advance() {
 	p.rnd = p.rnd.NextRound()
 }
 
+func (p *BaseParty) noteEarlyMessage() {
+	p.earlyMessages = true
+}
+
+func (p *BaseParty) hasEarlyMessages() bool {
+	return p.earlyMessages
+}
+
 func (p *BaseParty) lock() {
 	p.mtx.Lock()
 }
@@ -138,9 +150,31 @@ func BaseStart(p Party, task string, prepare ...func(Round) *Error) *Error {
 	}
 	common.Logger.Infof("party %s: %s round %d starting", p.round().Params().PartyID(), task, 1)
 	defer func() {
-		common.Logger.Debugf("party %s: %s round %d finished", p.round().Params().PartyID(), task, 1)
+		common.Logger.Debugf("party %s: %s round %d finished", p.PartyID(), task, 1)
 	}()
-	return p.round().Start()
+	if err := p.round().Start(); err != nil {
+		return err
+	}
+	if !p.hasEarlyMessages() {
+		return nil
+	}
+	// messages that arrived before Start() are stored but have not been looked at (there was no
+	// round to update): process them now, as BaseUpdate does after storing a message. otherwise a
+	// party that sends nothing in round 1 would never be woken up again
+	for p.round() != nil {
+		if _, err := p.round().Update(); err != nil {
+			return err
+		}
+		if !p.round().CanProceed() {
+			break
+		}
+		if p.advance(); p.round() != nil {
+			if err := p.round().Start(); err != nil {
+				return err
+			}
+		}
+	}
+	return nil
 }
 
 // an implementation of Update that is shared across the different types of parties (keygen, signing, dynamic groups)
@@ -183,5 +217,7 @@ func BaseUpdate(p Party, msg ParsedMessage, task string) (ok bool, err *Error) {
 		}
 		return r(true, nil)
 	}
+	// no round yet: the message stays stored and is processed by Start()
+	p.noteEarlyMessage()
 	return r(true, nil)
 }
